@@ -17,7 +17,9 @@ use std::path::Component;
 use std::path::{Path, PathBuf};
 
 use tokio::fs;
+use tokio::io::AsyncReadExt;
 use tokio::io::AsyncSeekExt;
+use tokio::io::AsyncWriteExt;
 use tokio_util::io::ReaderStream;
 
 use futures::TryStreamExt;
@@ -773,6 +775,10 @@ impl S3 for FileSystem {
             .map(|parts| i32::try_from(parts.len()).expect("total number of parts must be <= 10000."))
             .unwrap_or_default();
 
+        let mut md5_hash = Md5::new();
+        let mut file_size: u64 = 0;
+        let mut buf = vec![0; 65536];
+
         for part in multipart_upload.parts.into_iter().flatten() {
             let part_number = part
                 .part_number
@@ -784,8 +790,20 @@ impl S3 for FileSystem {
 
             let part_path = self.resolve_upload_part_path(upload_id, part_number)?;
 
+            // the MD5 sum is taken while the parts are copied: once the object is in place nothing may fail any more
             let mut reader = try_!(fs::File::open(&part_path).await);
-            let size = try_!(tokio::io::copy(&mut reader, &mut file_writer.writer()).await);
+            let mut size: u64 = 0;
+            loop {
+                let nread = try_!(reader.read(&mut buf).await);
+                if nread == 0 {
+                    break;
+                }
+                md5_hash.update(&buf[..nread]);
+                try_!(file_writer.writer().write_all(&buf[..nread]).await);
+                size += nread as u64;
+            }
+            try_!(file_writer.writer().flush().await);
+            file_size += size;
 
             if part_number != total_parts_cnt && size < 5 * 1024 * 1024 {
                 return Err(s3_error!(EntityTooSmall));
@@ -804,8 +822,7 @@ impl S3 for FileSystem {
             let _ = self.delete_metadata(&bucket, &key, Some(upload_id));
         }
 
-        let file_size = try_!(fs::metadata(&object_path).await).len();
-        let md5_sum = self.get_md5_sum(&bucket, &key).await?;
+        let md5_sum = hex(md5_hash.finalize());
 
         debug!(?md5_sum, path = %object_path.display(), size = ?file_size, "file md5 sum");
 
